@@ -65,3 +65,20 @@ def is_cycle_of(quad: Sequence[int], side: Sequence[int]) -> bool:
 def block_side_cycles(ids: Sequence[int]) -> Dict[str, Tuple[int, ...]]:
     """vertex labels of the six sides of a hex entry, as cycles"""
     return {name: tuple(ids[i] for i in HEX_SIDES[name]) for name in SIDE_NAMES}
+
+
+def side_name_of_perm(perm: Sequence[int], g: int) -> str:
+    """as local_side_name, for any corner numbering given as perm[local corner] = canonical corner of the cell"""
+    want = canon_side_corners(g)
+    for name in SIDE_NAMES:
+        if frozenset(perm[i] for i in HEX_SIDES[name]) == want:
+            return name
+    raise AssertionError("no side matches")  # pragma: no cover
+
+
+def global_side_of_perm(perm: Sequence[int], name: str) -> int:
+    have = frozenset(perm[i] for i in HEX_SIDES[name])
+    for g in range(6):
+        if canon_side_corners(g) == have:
+            return g
+    raise AssertionError("no global side matches")  # pragma: no cover
